@@ -1,43 +1,68 @@
 PROP = dict(
-    drivers=['Sixel', 'SixelQueue'],
+    drivers=['Sixel', 'SixelQueue', 'SixelLoad'],
         gens=['sixel'],
         lake=['IcyVerif.Props.C14'],
         ns='IcyVerif.C14',
-        theorems=['constants_match_source', 'sixel_rect', 'sixel_pad_only', 'sixel_raster_consistent', 'sixel_total_partial', 'sixel_total_bounded_partial', 'sixel_total_false',
+        theorems=['constants_match_source', 'sixel_rect', 'sixel_pad_only', 'sixel_raster_consistent', 'sixel_total', 'decode_total', 'sixel_cursor_overflow_is_error',
                   'sixel_rect_pinned_false',
                   'schedule_independent', 'schedule_independent_pair', 'all_delivered_after_polls',
-                  'poll_nonblocking', 'poll_stops_at_unfinished', 'no_loss_no_dup', 'no_loss'],
+                  'poll_nonblocking', 'poll_stops_at_unfinished', 'no_loss_no_dup', 'no_loss',
+                  'load_source_unchanged', 'load_one_layer_per_image', 'load_cell_size', 'load_schedule_independent',
+                  'load_never_blocks', 'load_no_loss', 'load_text_clear', 'clear_forgets', 'placement_loses_only_covered', 'dcs_handoff'],
         harness='c14',
         harness_timeout=3000,
         design='DESIGN.md §4 C14',
-        technique='Lean 4 proof over two executable models. (a) the sixel parser of src/sixel_mod.rs as a char-driven machine '
-                  'over row LENGTHS with every index / % / i32 cursor operation as an explicit panic outcome: rectangularity, '
-                  'consistency with a raster attribute and panic freedom by an invariant over the char list (rows % 4 = 0, '
-                  'rows in range, palette non-empty). (b) Buffer::update_sixel_threads as a transition system over '
-                  'arrive/finish/poll events: by induction over EVERY event list the layer is the arrival-order placement of '
-                  'the popped prefix (schedule independence), poll never joins a running thread, the push log is the ok part '
-                  'of an arrival prefix (no loss / no duplication). Differential correspondence against the real crate: '
-                  'Sixel::parse_from on payloads, and a real Buffer fed through the ANSI parser with decode threads held at the '
-                  'cfg(icy_engine_verif) gate and released in every order.',
+        technique='Lean 4 proof over three executable models. (a) the sixel parser of src/sixel_mod.rs as a char-driven machine '
+                  'over row LENGTHS with every index / % operation as an explicit panic outcome and the checked i32 cursor arithmetic '
+                  'as a parse error: rectangularity, consistency with a raster attribute and panic freedom (FULL: sixel_total, '
+                  'decode_total) by an invariant over the char list (rows % 4 = 0, rows in range, palette non-empty); the picture is '
+                  'independent of the scale arguments (decode_img, a simulation argument over every step function). '
+                  '(b) Buffer::update_sixel_threads as a transition system over arrive/finish/poll/clear events: by induction over '
+                  'EVERY event list the layer is the arrival-order placement of the popped prefix (schedule independence), poll never '
+                  'joins a running thread, the push log is the ok part of an arrival prefix (no loss / no duplication), a clear-screen '
+                  'forgets everything before it; the covering rule removes nothing but images covered by a LATER image '
+                  '(placement_loses_only_covered). (c) the file-loading path parse_with_parser: the join loop under an arbitrary '
+                  'completion schedule ends with a result that depends on the arrival order only (load_schedule_independent), and the '
+                  'sixel-to-layer loop maps the delivered list one-to-one onto image layers, newest first, cell size = ceiling, for ALL '
+                  'lists incl. zero-size images (load_one_layer_per_image, load_cell_size, load_no_loss); the execute_dcs hand-off '
+                  '(parameters before q) by dcs_handoff. Differential correspondence against the real crate: '
+                  'Sixel::parse_from on payloads; a real Buffer fed through the ANSI parser with decode threads held at the '
+                  'cfg(icy_engine_verif) gate and released in every order; Buffer::from_bytes on generated files under every '
+                  'stream-parsed extension; single DCS strings on a terminal buffer; the Sixel struct geometry API.',
         rule='(a) boundary payloads; structured pictures (raster attribute smaller/equal/larger than the data, colour selects and '
              'RGB/HLS definitions, "!" repeats up to 500, "$" overprints, bands of unequal length); token-level and char-level random streams over the sixel '
              'alphabet plus digits, ";", junk, code points > 0x7F; ALL strings up to length 3 (quick) / 5 (thorough) over '
              '~A?-$!#";12. (b) k = 1..4 images x ALL k! completion orders x ALL 2^k placements of a poll after each completion '
-             '(quick: 3 geometry sets per k, thorough: 12), '
-             'with/without a leading poll, closing polls; plus seeded random interleavings of arrivals, completions and polls '
-             '(some decodes never finishing). distinct_nontrivial = distinct payloads decoding to a non-empty image + distinct '
-             '(geometry set, event list) scenarios compared poll by poll.',
+             '(quick: 4 geometry sets per k incl. one with panicking decode threads, thorough: 12), '
+             'with/without a leading poll, closing polls; a clear-screen (ESC[2J, ESC[3J, FF) after each prefix of each completion order; '
+             'plus seeded random interleavings of arrivals, completions, polls and clear-screens '
+             '(some decodes never finishing); decode threads that PANIC (the gate callback panics inside the thread, so join() is Err) '
+             'between images that the same poll must still deliver. (c) hand-made and seeded files under ans/ice/diz/avt/pcb/msg/an1/asc/unknown extensions with 0..=5 sixel '
+             'sequences (painted, all-background "?", empty payload, raster attributes declaring 0 / smaller / larger, failing decodes), DCS parameters '
+             'before q, positions from CUP / text / CRLF (clustered so that images cover each other), other DCS strings (macro, font, unsupported), '
+             'a custom font of another cell size loaded anywhere in the file, clear-screens between sequences, UTF-8 BOM; oracle: image layers = '
+             'arrival-order placement computed by the harness, newest first, each a full rectangle of ceil cells, nothing left queued. '
+             '1200 (quick) DCS strings on a terminal buffer (decode result, scales, position = caret, caret unmoved); 1500 geometry cases '
+             '(get_screen_rect, as_rectangle, contains_rect with shared borders). distinct_nontrivial = distinct payloads decoding to a non-empty '
+             'image + distinct (geometry set, event list) scenarios + distinct files yielding at least one image layer.',
         modelled='SixelParser::{parse_from, parse_char, parse_sixel_data, translate_sixel_to_pixel, width, height} with '
-                 'parse_next_number saturation, Palette length (set_color_rgb/hsl resize), Vec::resize of rows; '
+                 'parse_next_number saturation, Palette length (set_color_rgb/hsl resize), Vec::resize of rows, the checked cursor arithmetic, '
+                 'vertical_scale/horizontal_scale (caller arguments, overwritten by a raster attribute); '
                  'Buffer::update_sixel_threads (front-only pop, is_finished test before join, join error = continue, result? = '
-                 'early Err return, shadow removal by Rectangle::contains_rect on Sixel::get_screen_rect, push), execute_dcs push_back',
+                 'early Err return, shadow removal by Rectangle::contains_rect on Sixel::get_screen_rect, push), execute_dcs '
+                 '(CTerm:Font prefix, numeric parameters with the leading-";" quirk, !z, q: vertical_scale table regenerated from the source, '
+                 'position = caret, push_back), clear_screen / Caret::ff (layers[0].clear + stop_sixel_threads), '
+                 'parse_with_parser (join loop with `?`, sixels.pop() conversion loop, (px + font - 1) / font cell sizes, layer number / offset / '
+                 'inner sixel position; text of both loops pinned by load_source_unchanged), Sixel::{from_data, new, set_size, get_screen_rect, as_rectangle}',
         not_modelled='PARTIAL: the OS scheduler and the memory ordering of JoinHandle::is_finished/join (the hook serialises real '
-                     'thread completions into finish events; a finished thread\'s join returns its result at once); pixel colours '
-                     '(palette abstracted to its length), vertical/horizontal scale, the allocator: numbers in the payload that '
+                     'thread completions into finish events; a finished thread\'s join returns its result at once; on the file-loading path the real '
+                     'schedule is whatever the OS does — the model is run under a random schedule and load_schedule_independent says it does not matter); '
+                     'pixel colours (palette abstracted to its length; the unused default background colour P2), the allocator: numbers in the payload that '
                      'request more than 2^26 rows/bytes end the model with the outcome "huge" (finding key=alloc), i32 overflow of '
-                     'pixel coordinates in get_screen_rect. The i32 sixel-cursor arithmetic IS modelled and can panic after >= '
-                     '357913941 cursor moves (finding key=sixel_mod.rs::translate_sixel_to_pixel:overflow; theorems sixel_total_partial, '
-                     'sixel_total_bounded_partial, sixel_total_false).',
+                     'pixel coordinates in get_screen_rect and of (pixels + font - 1), f32 rounding in as_rectangle beyond 2^24 pixels; the text between '
+                     'the sequences of a file (the caret position of each sequence is an input of the model, predicted by the generator from its own '
+                     'CUP / text / CRLF segments), crop_loaded_file and the bold pass (cells of layer 0 only), a decode error aborts the whole load '
+                     '(modelled as the outcome err: parse_with_parser propagates update_sixel_threads()? although skip_errors is set).',
         assumptions=['the result of a decode is a function of its payload only (Cfg.res); a thread that has finished reports '
                      'is_finished() = true when polled afterwards (the harness waits for is_finished before it counts a completion)'],
         thorough_exhaustive=True,
